@@ -70,7 +70,7 @@ class C24(Check):
                 await asyncio.sleep(0)
             task.cancel()
             try:
-                await asyncio.wait_for(task, 5)
+                await asyncio.wait_for(task, 60)
                 out = "returned"
             except asyncio.CancelledError:
                 out = "cancelled"
@@ -81,7 +81,7 @@ class C24(Check):
             return out
         try:
             out = asyncio.run(go())
-            fake.process.join(2)
+            fake.process.join(20)
             stopped = not fake.process.is_alive()
         finally:
             fake.runningValue.value = False
@@ -147,7 +147,7 @@ class C24(Check):
             klog = len(kernel.log)
             task.cancel()
             try:
-                await asyncio.wait_for(task, 5)
+                await asyncio.wait_for(task, 60)
                 out = "returned"
             except asyncio.CancelledError:
                 out = "cancelled"
